@@ -230,4 +230,6 @@ class C05(common.Prop):
         return case
 
 
+C05.fail_text.update({n + 10 * k: C05.fail_text[n] + ' [inside known defect class %s, but not with the analysed behaviour]' % c
+                     for k, c in CLASSES_C05.items() for n in (1, 2)})
 PROP = C05()
